@@ -18,6 +18,8 @@ pub enum Case {
     CbcCtLen { len: usize, content: String },
     /// CBC decrypt where the final plaintext byte is v (others seeded / well-formed padding)
     CbcLastByte { v: u8, wellformed: bool, blocks: usize },
+    /// operations on ONE mode object; the last one is judged. op = 0..=5, see `seq_op`
+    History { mode: String, seq: Vec<u16> },
 }
 
 pub const MODES: [&str; 4] = ["cbc", "cfb", "ofb", "ctr"];
@@ -133,6 +135,7 @@ fn eval(ctx: &Ctx, case: &Case) {
                 Guard::Done(Err(_)) => ctx.outcome(&format!("err/cbc-ct/{}", len_class(*len))),
             }
         }
+        Case::History { mode, seq } => eval_history(ctx, case, mode, seq),
         Case::CbcLastByte { v, wellformed, blocks } => {
             let (k, iv) = (h16(STD_KEY), [0xa5u8; 16]);
             let mut pt = seeded(ctx.seed, "cbclast", 16 * blocks);
@@ -167,6 +170,58 @@ fn eval(ctx: &Ctx, case: &Case) {
     }
 }
 
+/// (decrypt?, data, iv) of an operation of the object-history model
+fn seq_op(seed: u64, mode: &str, op: u16) -> (bool, Vec<u8>, [u8; 16]) {
+    let key = h16(STD_KEY);
+    let iv0: [u8; 16] = seeded(seed, "c07hiv0", 16).try_into().unwrap();
+    let mut iv1: [u8; 16] = seeded(seed, "c07hiv1", 16).try_into().unwrap();
+    for b in &mut iv1[8..] {
+        *b = 0xff; // carries through 8 bytes in CTR
+    }
+    let d0 = seeded(seed, "c07hd0", 37);
+    let d1 = seeded(seed, "c07hd1", 64);
+    match op {
+        0 => (false, d0, iv0),
+        1 => (false, d1, iv1),
+        2 => (false, seeded(seed, "c07hd2", 5), iv0),
+        3 => (true, ref_enc(mode, &key, &iv0, &d0), iv0),
+        4 => (true, ref_enc(mode, &key, &iv1, &d1), iv1),
+        _ => (false, d0, iv1),
+    }
+}
+
+fn eval_history(ctx: &Ctx, case: &Case, mode: &str, seq: &[u16]) {
+    let key = h16(STD_KEY);
+    let Guard::Done(Ok(m)) = guard(|| Sm4CipherMode::new(&key, mk(mode))) else { return };
+    ctx.depth(seq.len() as u64);
+    for (i, op) in seq.iter().enumerate() {
+        let (dec, data, iv) = seq_op(ctx.seed, mode, *op);
+        ctx.call();
+        let r = guard(|| if dec { m.decrypt(&data, &iv) } else { m.encrypt(&data, &iv) });
+        if i + 1 == seq.len() {
+            ctx.trace();
+            let want = if dec {
+                match mode {
+                    "cbc" => {
+                        let raw = sm4::cbc_decrypt_raw(&key, &iv, &data);
+                        let pad = *raw.last().unwrap() as usize;
+                        raw[..raw.len() - pad].to_vec()
+                    }
+                    "cfb" => sm4::cfb_decrypt(&key, &iv, &data),
+                    "ofb" => sm4::ofb_crypt(&key, &iv, &data),
+                    _ => sm4::ctr_crypt(&key, &iv, &data),
+                }
+            } else {
+                ref_enc(mode, &key, &iv, &data)
+            };
+            match r {
+                Guard::Done(Ok(v)) if v == want => ctx.outcome(&format!("ok/history/{}", mode)),
+                other => ctx.violation(&format!("Sm4CipherMode[{}]", mode), "result-depends-on-earlier-calls-on-the-object", format!("seq={:?} -> {}", seq, dbg(&other)), serde_json::to_value(case).unwrap()),
+            }
+        }
+    }
+}
+
 pub fn replay(ctx: &Arc<Ctx>, v: &Value) {
     let c: Case = serde_json::from_value(v.clone()).expect("C07 case");
     eval(ctx, &c);
@@ -176,7 +231,7 @@ pub fn run(ctx: &Arc<Ctx>) {
     refmodels::selftest::run(&["sm4"]).unwrap_or_else(|e| ctx.machinery_error(format!("reference self-test failed: {}", e)));
     corpus_selftest(ctx);
     let lmax = ctx.tier.pick(200usize, 600);
-    ctx.set_rule("mode x every data length 0..=Lmax x {standard key, seeded key} x IV in {0, seeded, last j bytes 0xFF for j=0..=16} x content {zero, seeded}: ciphertext = reference mode output (length included), library decrypts the reference ciphertext back to the data. Error side: IV lengths 0..=32, CBC ciphertext of every length 0..=Lmax, CBC final plaintext byte every value 0..=255 (well-formed and malformed padding). Oracle: textbook modes over the reference block cipher, pinned by an OpenSSL-generated corpus.");
+    ctx.set_rule("mode x every data length 0..=Lmax x {standard key, seeded key} x IV in {0, seeded, last j bytes 0xFF for j=0..=16} x content {zero, seeded}: ciphertext = reference mode output (length included), library decrypts the reference ciphertext back to the data. Error side: IV lengths 0..=32, CBC ciphertext of every length 0..=Lmax, CBC final plaintext byte every value 0..=255 (well-formed and malformed padding). Plus all operation sequences to depth 3 (thorough 4) on one mode object per mode. Oracle: textbook modes over the reference block cipher, pinned by an OpenSSL-generated corpus.");
     ctx.note_bound(format!("Lmax={}", lmax));
     let seed_key = hex::encode(seeded(ctx.seed, "c07key", 16));
     let mut ivs: Vec<String> = vec![hex::encode([0u8; 16]), hex::encode(seeded(ctx.seed, "c07iv", 16))];
@@ -222,6 +277,28 @@ pub fn run(ctx: &Arc<Ctx>) {
     ctx.sample(serde_json::to_value(&cases[5]).unwrap());
     ctx.sample(serde_json::to_value(&cases[cases.len() - 1]).unwrap());
     run_cases(ctx, &cases, 64, eval);
+    // E1: one mode object, all operation sequences up to depth 3 (thorough 4) over 6 operations
+    // (encrypt / decrypt, three data lengths, two IVs): the mode object keeps no state between calls
+    let depth = ctx.tier.pick(3usize, 4);
+    for mode in MODES {
+        let c2 = ctx.clone();
+        let ms = mode.to_string();
+        let model = HistModel {
+            inits: vec![vec![]],
+            actions: Box::new(move |h: &[u16]| if h.len() < depth { (0..6).collect() } else { vec![] }),
+            visit: Arc::new(move |h: &[u16]| {
+                if !h.is_empty() {
+                    let c = Case::History { mode: ms.clone(), seq: h.to_vec() };
+                    eval(&c2, &c);
+                    prefix_push(serde_json::to_value(&c).unwrap());
+                }
+            }),
+            batch: 32,
+        };
+        let st = explore(model);
+        ctx.cov(&format!("object_history_model/{}", mode), serde_json::json!({"unique_states": st.unique_states, "generated": st.generated, "max_depth": st.max_depth}));
+    }
+    ctx.sample(serde_json::json!({"History": {"mode": "ctr", "seq": [1, 3, 0]}}));
 }
 
 /// the reference modes are pinned by OpenSSL-generated vectors (corpus/sm4_modes.json)
